@@ -13,12 +13,17 @@ def load_table():
     return {e["key"]: e for e in data["entries"]}
 
 
+def norm_path(path):
+    """Function path with closure ordinals removed: adding or removing an unrelated closure renumbers the others."""
+    return re.sub(r"\{closure#\d+\}", "{closure}", path)
+
+
 def site_key(fn, s, seen):
     detail = s["detail"]
     if s["kind"] == "unwrap":
         # unwrap() and expect("..") are the same site: changing the message must not change the key
         detail = {"expect": "unwrap", "expect_err": "unwrap_err"}.get(detail, detail)
-    base = f"{fn['path']}|{s['kind']}|{detail}"
+    base = f"{norm_path(fn['path'])}|{s['kind']}|{detail}"
     n = seen.get(base, 0)
     seen[base] = n + 1
     return base if n == 0 else f"{base}#{n + 1}"
@@ -29,12 +34,13 @@ def inventory(world, crate_names, fn_filter=None):
     out = []
     for cn in crate_names:
         c = world.crates[cn]
-        for fn in sorted(c.all_fns(), key=lambda f: (f["path"], f["span"][1])):
+        seen_by_path = {}
+        for fn in sorted(c.all_fns(), key=lambda f: (norm_path(f["path"]), f["span"][1], f["path"])):
             if "body" not in fn:
                 continue
             if fn_filter and not fn_filter(fn):
                 continue
-            seen = {}
+            seen = seen_by_path.setdefault(norm_path(fn["path"]), {})   # sibling closures share one ordinal space, in source order
             for s in P.sites(fn):
                 if "Pointer" in s["kind"]:
                     continue  # debug-build pointer checks of unsafe blocks emitted by rustc, not source-level sites
